@@ -306,7 +306,7 @@ def c15_post(cov):
 prop("C15",
      post_cov=c15_post,
      fuzz=dict(prop=15, workers=8, seconds=120),
-     units=lambda tier: mon_units("c15", "c15.cpp", tier, 15000, 300000),
+     units=lambda tier: mon_units("c15", "c15.cpp", tier, 15000, 120000),
      level="exploration",
      rule=("multi-object life-cycle histories (1-6 slots of the six object kinds on every back end, 4-60 calls): init, key / "
            "tweak / counter set-up, processing, init calls whose allocation fails (12 %), cleanup, repeated cleanup, cleanup of NULL and of a zeroed never-initialised "
